@@ -273,7 +273,16 @@ fn emit_split(base_xs: &Xstate, r: &mut crate::rng::Rng, fs: &[Field], sizes: &[
     let res: Result<(), String> = (|| {
         for g in groups {
             let v = pieces(&mut xs, r, g)?;
-            exec(&mut xs, vec![Step::Push(Cell::Vector(v)), Step::Word(">bitstr".into()), Step::Word("emit".into())])?;
+            exec(&mut xs, vec![Step::Push(Cell::Vector(v)), Step::Word(">bitstr".into())])?;
+            if r.chance(40) {
+                // emit the group as a *slice*: the same bits cut out of a longer input, so the value does not start at
+                // bit 0 of its buffer (what `bits`/`bytes`/`magic` hand out)
+                let len = match xs.get_data(0).map(|c| c.value().clone()) { Some(Cell::Bitstr(b)) => b.len(), _ => 0 };
+                let k = r.below(13) + 1;
+                let junk = format!("[ {} ] >bitstr open-bitstr {} bits close-bitstr", if r.bool() { "0xff 0xff" } else { "0x5a 0xc3" }, k);
+                exec(&mut xs, vec![Step::Word(junk), Step::Word("swap 2 collect >bitstr open-bitstr".into()), Step::Word(format!("{} bits drop {} bits close-bitstr", k, len))])?;
+            }
+            exec(&mut xs, vec![Step::Word("emit".into())])?;
         }
         Ok(())
     })();
